@@ -97,6 +97,7 @@ func cmdWorker(args []string) int {
 	fs.StringVar(&pm.TranspOut, "transp", "", "")
 	known := fs.String("known", "", "")
 	fs.StringVar(&pm.SelfExe, "self", "", "")
+	fs.BoolVar(&pm.PerRun, "perrun", false, "")
 	fs.Parse(args)
 	pm.Thorough = pm.Tier == "thorough"
 	log.SetOutput(io.Discard) // the library logs warnings; they are not part of any compared result
@@ -144,6 +145,7 @@ func cmdRun(args []string) int {
 	plain := fs.String("plain", "", "path of the plain (un-instrumented) build for the transparency check")
 	instrReport := fs.String("instr-report", "", "instrumenter report (json)")
 	digestOnly := fs.Bool("digest", false, "print only the campaign digest (determinism self-test)")
+	perRun := fs.Bool("perrun", false, "with -digest: print one digest line per run")
 	fs.Parse(args)
 	eng := engineOf(*prop)
 	if eng == "" {
@@ -174,6 +176,9 @@ func cmdRun(args []string) int {
 				"-replays", *replays, "-known", *known, "-self", self,
 				"-distinct", filepath.Join(*scratch, fmt.Sprintf("distinct.%s.%d.bin", *prop, w)),
 				"-transp", filepath.Join(*scratch, fmt.Sprintf("transp.%s.%d.jsonl", *prop, w))}
+			if *perRun {
+				a = append(a, "-perrun")
+			}
 			cmd := exec.Command(self, a...)
 			cmd.Stderr = os.Stderr
 			b, err := cmd.Output()
@@ -205,7 +210,15 @@ func cmdRun(args []string) int {
 		digests = append(digests, o.Stats.Digest)
 	}
 	if *digestOnly {
-		fmt.Println(strings.Join(digests, ""))
+		if *perRun {
+			for _, o := range outs {
+				for _, l := range o.Stats.PerRun {
+					fmt.Println(l)
+				}
+			}
+		} else {
+			fmt.Println(strings.Join(digests, ""))
+		}
 	}
 	// distinct union
 	var hs []uint64
